@@ -20,6 +20,22 @@ func (e *Engine) propertyExtras(prop, only string) ([]*Obligation, []*Unit) {
 	fns, acc := e.guardFunctions()
 	var obls []*Obligation
 	var units []*Unit
+	{
+		// closed-world scan for variables shared with goroutines and reassigned by the spawner
+		var all []*ssa.Function
+		for fn := range e.allFuncs {
+			if e.inRepo(fn) && len(fn.Blocks) > 0 && !strings.HasSuffix(e.fset.Position(fn.Pos()).Filename, "_test.go") {
+				all = append(all, fn)
+			}
+		}
+		sort.Slice(all, func(i, j int) bool { return all[i].String() < all[j].String() })
+		for _, fn := range all {
+			if only != "" && !strings.Contains(fn.String(), only) {
+				continue
+			}
+			obls = append(obls, e.captureObligations(fn, []string{"C20"})...)
+		}
+	}
 	for _, fn := range fns {
 		if only != "" && !strings.Contains(fn.String(), only) {
 			continue
